@@ -572,3 +572,53 @@ func everyRuleVisited(c *Ctx, g *load.G, rule string) {
 	}
 	r.Check(len(bad) == 0, rule, "G.builder.ComputeNullables:every-rule-visited", "", g.Where(fd.Pos()), "NullableVisit is called on every rule of the grammar", strings.Join(bad, "; "))
 }
+
+// seqVisitStopsAtFirstNonNullable (C07-w): the dual of C07-v for sequences. InitialNames of a sequence reads its
+// items up to and including the first non-nullable one; the items after it are not at the start position. A visit that
+// goes on past that item follows rule references through consumed input, where the cycle cut of Rule.NullableVisit
+// ("a rule that is being visited answers false") fires on ordinary, consuming recursion - and RuleRefExpr.NullableVisit
+// stores that provisional answer in the reference (last writer wins). A reference to a genuinely nullable rule then
+// reads non-nullable, InitialNames stops in front of it and the first-graph loses the edge behind it. The rule: on
+// every path of SeqExpr.NullableVisit on which an item answered false, the loop over the items is left at once
+// (return or break), before another item is visited.
+func seqVisitStopsAtFirstNonNullable(c *Ctx, g *load.G, rule string) {
+	r := c.R
+	fd := load.FuncDecl(g.Pkg("ast"), "SeqExpr", "NullableVisit")
+	if fd == nil || fd.Body == nil {
+		r.Fatal("anchor ast.SeqExpr.NullableVisit not found")
+		return
+	}
+	nFalse := 0
+	var bad []string
+	for _, p := range c.astNorm().without("NullableVisit").normPaths(fd) {
+		depth := 0
+		for i, e := range p {
+			switch e.Kind {
+			case "loop":
+				depth++
+			case "endloop":
+				depth--
+			}
+			if e.Kind != "+" || depth == 0 || !strings.HasPrefix(e.Text, "!") || !strings.Contains(e.Text, ".NullableVisit(") {
+				continue
+			}
+			nFalse++
+			left := false
+			for _, e2 := range p[i+1:] {
+				if e2.Kind == "return" || e2.Kind == "branch" && strings.HasPrefix(e2.Text, "break") {
+					left = true
+					break
+				}
+				if e2.Kind == "endloop" || e2.Kind == "call" && strings.Contains(e2.Text, ".NullableVisit(") {
+					break
+				}
+			}
+			if !left {
+				bad = append(bad, "after an item answered false the loop goes on to the next item ["+abbreviate(strings.Join(p.facts(), " "))+"]")
+			}
+		}
+	}
+	r.Check(len(bad) == 0 && nFalse >= 1, rule, "G.ast.SeqExpr.NullableVisit:stops-at-the-first-non-nullable-item", "", g.Where(fd.Pos()),
+		fmt.Sprintf("%d path(s) on which an item is non-nullable, each leaving the loop at once", nFalse),
+		strings.Join(uniq(bad), "; ")+": the items behind the first non-nullable one are not at the start position; visiting them walks through consuming recursion, where Rule.NullableVisit's cycle cut answers false and the reference keeps that provisional answer - a nullable rule then reads non-nullable and left recursion behind it goes undetected (`A <- Z A 'q' / 'y'; Z <- 'a' A / \"\"` is accepted)")
+}
